@@ -2717,6 +2717,7 @@ impl Attribute {
     ///
     pub fn parse_optional_value_as_object(ps: &mut ParseState, name: Ident) -> Option<Self> {
         let mut is_value_unspecified = false;
+        let mut invalid_value = None;
         let value = Attribute::parse_optional_value_part(
             ps,
             |ps, ch| {
@@ -2738,15 +2739,20 @@ impl Attribute {
                 }
             },
             |ps| Value::parse_data_binding(ps, true),
-            |v| Value::Static {
-                value: v.name,
-                location: v.location,
+            |v| {
+                // (not an object, just like a quoted value without a data binding)
+                let value = Value::new_empty(v.location.start);
+                invalid_value = Some(v.location);
+                value
             },
             || {
                 is_value_unspecified = true;
                 Value::new_empty(name.location.end)
             },
         );
+        if let Some(location) = invalid_value {
+            ps.add_warning(ParseErrorKind::InvalidAttributeValue, location);
+        }
         value.map(|value| Self {
             name,
             value: (!is_value_unspecified).then_some(value),
